@@ -336,8 +336,8 @@ func (c *irChecker) structure(fn *ir.Function) bool {
 		if refs == nil {
 			continue
 		}
-		if vi, ok := v.(ir.Instruction); ok && vi.Parent() != fn {
-			continue
+		if vi, ok := v.(ir.Instruction); ok && (vi.Block() == nil || vi.Parent() != fn) {
+			continue // removed instructions were reported above
 		}
 		if _, ok := v.(*ir.FreeVar); ok {
 			continue
@@ -360,6 +360,10 @@ func (c *irChecker) structure(fn *ir.Function) bool {
 			}
 			for _, r := range *v.Referrers() {
 				if r == nil {
+					continue
+				}
+				if r.Block() == nil {
+					bad("%s lists referrer %s, which has been removed from its block", v.Name(), r)
 					continue
 				}
 				if r.Parent() == fn && inFn[r] == nil {
